@@ -634,8 +634,12 @@ func (m *metadataStoreIndex) handleMultiMemberInitialMember(event proto.Message)
 		return errcode.ErrCode_ErrDeserialization.Wrap(err)
 	}
 
-	if _, ok := m.admins[pk]; ok {
-		return errcode.ErrCode_ErrInternal
+	// admins is keyed by key objects: compare the keys themselves, every
+	// re-index decodes fresh objects for the same announcement
+	for admin := range m.admins {
+		if admin.Equals(pk) {
+			return errcode.ErrCode_ErrInternal
+		}
 	}
 
 	m.admins[pk] = struct{}{}
